@@ -378,16 +378,23 @@ func (ps *Points) Collapse() {
 		return
 	}
 
-	pts := make(map[string]Point)
+	// points are identified by type and key, a blank key meaning "0"
+	type ident struct{ typ, key string }
+
+	pts := make(map[ident]Point)
 
 	for _, p := range *ps {
-		pA, OK := pts[p.Type+p.Key]
+		id := ident{p.Type, p.Key}
+		if id.key == "" {
+			id.key = "0"
+		}
+		pA, OK := pts[id]
 		if OK {
 			if pA.Time.Before(p.Time) || pA.Time.Equal(p.Time) {
-				pts[p.Type+p.Key] = p
+				pts[id] = p
 			}
 		} else {
-			pts[p.Type+p.Key] = p
+			pts[id] = p
 		}
 	}
 
